@@ -51,6 +51,10 @@ class Timer:
         self.start_time = self.env.now
         self.timeout = timeout
         self.expire_time = self.start_time + timeout
+        if self.env.active_process is self.proc:
+            # called from the timer's own callback: run() re-arms itself with
+            # the new values once the callback returns
+            return
         if not self.proc.processed:
             self.proc.interrupt("restart timer")
             self.proc = self.env.process(self.run(self.env))
